@@ -121,6 +121,12 @@ def add_header_to_file(
         out.write("\n")
         return result
 
+    # A byte order mark must stay the very first character of the file.
+    bom = ""
+    if text.startswith("\ufeff"):
+        bom = "\ufeff"
+        text = text[1:]
+
     # Detect and remember line endings for later conversion.
     line_ending = detect_line_endings(text)
     # Normalise line endings.
@@ -165,7 +171,7 @@ def add_header_to_file(
         result = 1
     else:
         with open(path, "w", encoding="utf-8", newline=line_ending) as fp:
-            fp.write(output)
+            fp.write(bom + output)
         # TODO: This may need to be rephrased more elegantly.
         out.write(_("Successfully changed header of {path}").format(path=path))
         out.write("\n")
